@@ -190,6 +190,10 @@ func (sg *skGen) ensureValues(h int) {
 
 func (sg *skGen) obs(h int) {
 	sg.ensureValues(h)
+	if sg.g.rng.Bool(35) {
+		// iteration stops as soon as asked (k-th call); k = 0 never asks
+		sg.line("fe %d %d", h, sg.g.rng.Intn(6))
+	}
 	e := sg.sh.sks[h]
 	if e != nil && e.storeKind == "sparse" && e.exact == nil {
 		sg.line("obs %d nosum", h)
